@@ -73,8 +73,10 @@ class LazySuite(Suite):
                     ops.append(("g", rng.randint(-n - 2, n + 1)))
                 elif r < 0.55 and n:
                     ops.append(("l", rng.randrange(n)))
-                elif r < 0.63:
+                elif r < 0.66:
                     ops.append(("i",))
+                    if n and rng.random() < 0.8:      # … then the same trees again by index (each file is still read once)
+                        ops.append(("g", rng.randrange(-n, n)))
                 elif r < 0.7:
                     ops.append(("n",))
                 else:
